@@ -89,8 +89,11 @@ def base_cfgs(rng: random.Random, per_op: int) -> List[Dict[str, Any]]:
         out.append({"op": "gelu", "mult": rng.choice([0.25, 1.0, 3.0]), "approximate": rng.choice(["none", "tanh"]), "batch": bt, "n": rng.choice([1, 4])})
         out.append({"op": "silu", "mult": rng.choice([0.25, 1.0, 3.0]), "batch": bt, "n": 3})
         n = rng.choice([2, 5])
-        out.append({"op": "softmax", "mult": rng.choice([0.25, 1.0, 3.0]), "batch": bt, "n": n, "dim": rng.choice([-1, 0]) if bt else -1})
-        out.append({"op": "matmul", "batch": rng.choice([[], [2], [2, 3]]), "a": rng.choice([1, 2, 5]), "b": rng.choice([1, 3, 4]), "c": rng.choice([1, 2, 6])})
+        # non-degenerate on purpose: softmax with mult = 1 has identical output / gradient scales (all six names coincide), matmul with
+        # a = c has equal left / right gradient scales -- such cases cannot tell a wrong selection from a right one
+        out.append({"op": "softmax", "mult": rng.choice([0.25, 3.0]), "batch": bt, "n": n, "dim": rng.choice([-1, 0]) if bt else -1})
+        a_ = rng.choice([1, 2, 5])
+        out.append({"op": "matmul", "batch": rng.choice([[], [2], [2, 3]]), "a": a_, "b": rng.choice([3, 4, 7]), "c": rng.choice([v for v in (1, 2, 6) if v != a_])})
         # discrete hyper-parameters that change which formula applies are ENUMERATED in every round (never sampled):
         # bias yes/no, groups 1/2 (3 in every third round), attention heads None/2
         for op in ("linear", "linear_readout"):
@@ -106,6 +109,7 @@ def base_cfgs(rng: random.Random, per_op: int) -> List[Dict[str, Any]]:
             if ops._broadcastable(sa, sb):
                 break
         out.append({"op": "add", "sa": sa, "sb": sb})
+        out.append({"op": "add", "sa": rng.choice([[2, 3], [4, 2, 3]]), "sb": rng.choice([[3], [1, 3], [1]])})     # operands of DIFFERENT sizes: left / right scales differ
         out.append({"op": "silu_glu", "mult": rng.choice([0.25, 1.0, 3.0]), "batch": bt, "n": 3})
         for heads in (None, 2):
             out.append({"op": "scaled_dot_product_attention", "batch": rng.choice([[], [2]]), "heads": heads, "seq": rng.choice([2, 4]), "d_head": rng.choice([1, 3]),
